@@ -28,6 +28,7 @@ CONSTANTS Base, Count,        \* fixed window b, c
           PreSizes,           \* size of the content found at first build: -1 = no file, 0 = empty file, n
           MaxRec, MaxFaults, MaxCrash, MaxRestart, MaxObst,
           MaxEncFail,         \* encoder failures (the encoder writes part of the record, then returns an error)
+          Gz,                 \* the archive pattern ends in .gz: the final step of a rotation compresses instead of renaming
           MaxOverlap,         \* reconfigurations: a successor appender built while its predecessor is alive
           BufFloor,           \* whole units that fit into the 1 KiB BufWriter (2 for 400-byte units, 64 and more for small ones)
           Hist                \* TRUE = carry the operation history (replay emission)
@@ -180,7 +181,7 @@ RotStep ==
                ELSE Fail /\ UNCHANGED <<disk, ri, fault>>
      ELSE IF fault.k = "final"
           THEN fault' = NoFault /\ Fail /\ UNCHANGED <<disk, ri>>
-          ELSE LET m == Move(disk.act, disk.arch[Base]) IN
+          ELSE LET m == IF Gz THEN Compress(disk.act, disk.arch[Base]) ELSE Move(disk.act, disk.arch[Base]) IN
                IF m.ok THEN /\ disk' = [disk EXCEPT !.act = m.src, !.arch[Base] = m.dst]
                             /\ pc' = after /\ UNCHANGED <<ri, fault, res, hist>>
                ELSE Fail /\ UNCHANGED <<disk, ri, fault>>
@@ -275,14 +276,18 @@ ArmFault ==
 \* a non-empty directory appears at / disappears from an archive name
 Obstruct ==
   /\ pc = "idle" /\ IsWindow /\ nObst < MaxObst /\ nextId <= MaxRec
-  /\ \E x \in Window : /\ disk.arch[x] = Absent
-                       /\ disk' = [disk EXCEPT !.arch[x] = Dir]
-                       /\ hist' = Log([op |-> "obstruct", i |-> x])
+  /\ \/ \E x \in Window : /\ disk.arch[x] = Absent
+                          /\ disk' = [disk EXCEPT !.arch[x] = Dir]
+                          /\ hist' = Log([op |-> "obstruct", i |-> x, kind |-> "dir"])
+     \* a name that cannot be written at the newest index: only a compressing final step writes there
+     \/ /\ Gz /\ nObst = 0 /\ disk.arch[Base] = Absent
+        /\ disk' = [disk EXCEPT !.arch[Base] = Full]
+        /\ hist' = Log([op |-> "obstruct", i |-> Base, kind |-> "full"])
   /\ nObst' = nObst + 1
   /\ UNCHANGED <<writer, pc, cur, ri, after, used, W, acked, nextId, fault, nFaults, nCrash, nRestart, nEnc, nOverlap, ref, refAct, rolls, res>>
 Unobstruct ==
   /\ pc = "idle" /\ IsWindow
-  /\ \E x \in Idx : /\ disk.arch[x] = Dir
+  /\ \E x \in Idx : /\ disk.arch[x] \in {Dir, Full}
                     /\ disk' = [disk EXCEPT !.arch[x] = Absent]
                     /\ hist' = Log([op |-> "unobstruct", i |-> x])
   /\ UNCHANGED <<writer, pc, cur, ri, after, used, W, acked, nextId, fault, nFaults, nCrash, nRestart, nObst, nEnc, nOverlap, ref, refAct, rolls, res>>
